@@ -274,6 +274,9 @@ func history(e *mavlh.Eng, r *gen.Rand) *world {
 	e.Reopen()
 	w.pending = nil
 	w.checkAll("restarted")
+	if !cfg.Prune {
+		e.Dump() // digest of every record: nothing but the committed trees' node records may be there (model diff)
+	}
 	return w
 }
 
